@@ -426,6 +426,18 @@ def r6(ctx, lib, rule='C20.R6'):
     ok = bool(ro) and any(a in b.reachable(ro[0].bb) for a in aggs)
     denied = any(i.endswith('PermissionDenied') for blk in b.blocks for s in blk['stmts'] for i in [str(s['rv'].get('variant') or '')]) or \
         any('PermissionDenied' in str(x) for c in b.calls() for x in [c.path]) or any('PermissionDenied' in (i or '') for i in backslice(b, [{'c': [0, []]}]).items)
+    if ro:
+        busy = False
+        for d, blk in enumerate(b.blocks):
+            t = blk['term']
+            if blk['cleanup'] or t['k'] != 'switch' or not backslice(b, [t['op']]).has_call(r'io::Error::raw_os_error$'):
+                continue
+            reach = [ro[0].bb in b.reachable(x) for x in dict.fromkeys(t['tgts']) if b.blocks[x]['term']['k'] != 'unreach']
+            if any(reach) and not all(reach):
+                busy = True
+        ctx.check(busy, rule, b.path + '|busy-executable', ro[0].where(), 'the fall-back is also taken for an error number (ETXTBSY: the file is a running program)',
+                  'the read-only fall-back is taken for PermissionDenied only: a duplicate that is the image of a running program cannot be opened for writing either (ETXTBSY), so the real run '
+                  'fails on it ("Text file busy") although nobody holds a lock and --dry-run / --no-lock process it')
     ctx.check(ok, rule, b.path + '|no-extra-permission', (ro[0].where() if ro else wo[0].where()), 'a denied write-open falls back to a read-only open + lock probe',
               'FileLock::new fails when the file cannot be opened for writing, although rm / mv / ln on it only need write access to the directory: for a non-root user a 0444 duplicate is '
               'announced by --dry-run ("Would process 1 files", and `bash script.sh` removes it) while the real run reports "Failed to open file .. for write: Permission denied" and processes 0 files')
